@@ -162,4 +162,65 @@ Section Prims.
     map (existsb (fun x => x)) (transpose (fst b) (snd b)).
   Definition bools_any (l : list bool) : bool := existsb (fun x => x) l.
   Definition count_true (l : list bool) : nat := length (filter (fun x => x) l).
+
+  (* --- nested frame -> multi-index frame, instance by instance -------------------------------- *)
+  (* X.index.get_level_values(-1).unique() of a frame with the default RangeIndex *)
+  Definition nested_index_unique (x : nested V) : list Z := ziota 0 (length (n_rows x)).
+  (* X.loc[idx, :].iteritems(): the (label, cell) pairs of one row *)
+  Definition nested_loc_row_items (x : nested V) (idx : Z) : list (name * ncell) :=
+    combine (n_cols x) (map (fun s => (n_kind x, s)) (concat (at_ (n_rows x) (Z.to_nat idx)))).
+  (* pd.concat(series, axis=1) of equally (0..T-1) indexed series: a T x c block, row = time point *)
+  Definition tblock := list (list V).
+  Definition pd_concat_axis1 (sers : list (list V)) : tblock :=
+    transpose (length (hd [] sers)) sers.
+  (* block.iloc[:, j] / block.iloc[:, j] = col / col.ffill() (no missing values: nothing to fill) *)
+  Definition block_col (b : tblock) (j : nat) : list V := flat_map (fun row => at_ row j) b.
+  Fixpoint set_nth {A} (l : list A) (j : nat) (a : A) : list A :=
+    match l, j with
+    | [], _ => []
+    | _ :: t, O => a :: t
+    | h :: t, S j' => h :: set_nth t j' a
+    end.
+  Definition block_set_col (b : tblock) (j : nat) (col : list V) : tblock :=
+    map (fun rv => set_nth (fst rv) j (snd rv)) (combine b col).
+  Definition col_ffill (col : list V) : list V := col.
+  (* block.index (0..T-1) ; MultiIndex.from_product([[idx], index]) ; block.index = keys *)
+  Definition block_index (b : tblock) : list Z := ziota 0 (length b).
+  Definition mi_from_product2 (a b : list Z) : list (Z * Z) :=
+    flat_map (fun i => map (pair i) b) a.
+  Definition kblock := list ((Z * Z) * list V).
+  Definition block_set_index (b : tblock) (keys : list (Z * Z)) : kblock := combine keys b.
+  (* pd.concat(blocks) then .columns = labels *)
+  Definition pd_concat_rows (blocks : list kblock) : kblock := concat blocks.
+  Definition mi_of_rows (rows : kblock) (labels : list name) : mi V := mkM labels rows.
+
+  (* --- multi-index frame -> long table, column by column -------------------------------------- *)
+  (* X_mi.index.to_frame(index=False): the two index levels as columns *)
+  Definition mi_index_frame (m : mi V) : list (Z * Z) := map (@fst (Z * Z) (list V)) (m_rows m).
+  (* X_mi.iloc[:, j].to_numpy() *)
+  Definition mi_col_values (m : mi V) (j : nat) : list V :=
+    flat_map (fun r => at_ (snd r) j) (m_rows m).
+  (* ids.assign(column=labels, value=values): rows (instance, label, time, value) *)
+  Definition ids_assign (ids : list (Z * Z)) (labels : list name) (values : list V) : long V :=
+    map (fun x => let '(k, d, v) := x in (fst k, d, snd k, v)) (combine (combine ids labels) values).
+  Definition long_concat (blocks : list (long V)) : long V := concat blocks.
+
+  (* --- 3-D array -> multi-index frame: product index, flatten, unstack ------------------------- *)
+  (* pd.MultiIndex.from_product([a, b, c]) *)
+  Definition mi_from_product3 (a b c : list nat) : list (nat * nat * nat) :=
+    flat_map (fun i => flat_map (fun j => map (fun t => (i, j, t)) c) b) a.
+  (* pd.DataFrame({"X": values}, index=idx): one value column with a 3-level index *)
+  Definition series3 := list ((nat * nat * nat) * V).
+  Definition mk_series3 (idx : list (nat * nat * nat)) (vals : list V) : series3 := combine idx vals.
+  (* S.unstack(level=lv): the labels of level lv become the columns, the other two levels (in
+     order) the row index; rows and columns sorted, each cell looked up by its three labels - i.e.
+     the pivot of the series read as a long table *)
+  Definition unstack3 (lv : nat) (S : series3) : mi V :=
+    long_pivot (map (fun kv : (nat * nat * nat) * V =>
+                       let '((a, b, c), v) := kv in
+                       match lv with
+                       | O => (Z.of_nat b, NInt (Z.of_nat a), Z.of_nat c, v)
+                       | S O => (Z.of_nat a, NInt (Z.of_nat b), Z.of_nat c, v)
+                       | _ => (Z.of_nat a, NInt (Z.of_nat c), Z.of_nat b, v)
+                       end) S).
 End Prims.
